@@ -58,7 +58,7 @@ func (configuration *Configuration) Unmarshal(b []byte) error {
 			return errors.Errorf("ConfigurationAttribute: No sufficient bytes to decode next configuration attribute")
 		}
 		length := binary.BigEndian.Uint16(configurationAttributeData[2:4])
-		if len(configurationAttributeData) < int(4+length) {
+		if len(configurationAttributeData) < 4+int(length) {
 			return errors.Errorf("ConfigurationAttribute: TLV attribute length error")
 		}
 
